@@ -477,6 +477,7 @@ func buildCorrespondence(ctx *Ctx, docs [][]byte, bans [][]directive.Enumeration
 		pp = append(pp, p)
 	}
 	buildCorrespondenceProjects(ctx, pp, label)
+	projectCorrespondence(ctx, docs, bans, label)
 }
 
 func buildCorrespondenceProjects(ctx *Ctx, projects []Project, label string) {
